@@ -215,9 +215,9 @@ class Acc:
 
 def _has(mod, case, key):
     try:
-        res = isolated_call(mod.execute, case, timeout=90)
+        res = isolated_call(mod.execute, case, timeout=float(os.environ.get("VERIF_CANDIDATE_TIMEOUT_S", 30)))
     except IsolatedTimeout:
-        print("warning: a minimisation candidate did not finish within 90s (dropped): %s" % json.dumps(case)[:300], file=sys.stderr)
+        print("warning: a minimisation candidate did not finish in time (dropped): %s" % json.dumps(case)[:300], file=sys.stderr)
         return None
     except Exception:
         return None
@@ -419,6 +419,8 @@ def run_check(pid, tier, seed, workers=None, quiet=False):
         # prefer a failing case that reproduces on its own in a pristine process; if the
         # verdict depended on earlier cases of the same worker, rebuild that history
         for c, s_, _, pre in by_key[k]:
+            if time.time() > minimise_total_end + 60:
+                break
             if _has(mod, c, k):
                 case, sig = c, s_
                 break
